@@ -292,7 +292,7 @@ type RunResult = (Vec<Ev>, Vec<crate::explore::Act>, Ret);
 fn run_on_thread(g: &fn_graph::FnGraph<TestFn>, cfg: &RunCfg, tape: &[u16], max_actions: usize) -> RunResult {
     let mut r = Runner::new(GRef::Shared(g), cfg);
     let mut t = Tape::new(tape);
-    drive(&mut r, Schedule::Tape(&mut t, max_actions, None));
+    drive(&mut r, Schedule::Tape(&mut t, max_actions, None), false);
     let ret = match r.ret() {
         Some(x) => x.clone(),
         None => {
@@ -347,7 +347,7 @@ impl Check for ThreadMultiCheck {
             // non-interference: the same actions alone on a fresh graph
             let g2 = build_graph(&spec);
             let mut solo = Runner::new(GRef::Shared(&g2), &cfgs[i]);
-            let ok = drive(&mut solo, Schedule::Strict(acts));
+            let ok = drive(&mut solo, Schedule::Strict(acts), false);
             let sret = solo.ret().cloned().unwrap_or(Ret::Deadlock);
             if !ok || &solo.trace() != trace || &sret != ret {
                 out.push(v(
